@@ -117,4 +117,4 @@ def strat(tier):
     return st.one_of(cnf.small_cnf(), cnf.threshold_cnf(32 if tier == "quick" else 40), cnf.threshold_cnf(24), cnf.structured_cnf())
 
 
-SUBS = [Sub("verdicts", run, strategy=strat, quick=500, thorough=6000, workers_quick=4, case_timeout=300)]
+SUBS = [Sub("verdicts", run, strategy=strat, quick=700, thorough=6000, workers_quick=4, case_timeout=300)]
